@@ -43,17 +43,18 @@ def main():
 
     def material():
         lines, metas = [], []
-        n = 4 if quick else 8
+        flip = rng.randrange(2)
+        n = 2 if quick else 8
         for i in range(n):
             nk = rng.choice([1, 2, 3])
             keys = base.KEYS[:nk]
             primary = rng.randrange(nk)
             id_offset = rng.choice([0, 1, 0xFFFFFFFF, rng.getrandbits(32)])
-            alg = [15, 17][i % 2]
+            alg = [15, 17][(i + flip) % 2]
             w = 32 if alg == 15 else 64
             s2c = bytes(rng.randrange(256) for _ in range(w))
             c2s = bytes(rng.randrange(256) for _ in range(w))
-            ver = [4, 4, 5][i % 3] if not quick else [4, 5][(i // 2) % 2]
+            ver = [4, 4, 5][i % 3] if not quick else [4, 5][i % 2]
             ncookies = rng.choice([1, 2, 3])
             lines.append("%d MK %d %d %d %s %d %s %s %d %d" % (i, id_offset, primary, nk, " ".join(k.hex() for k in keys),
                                                              alg, s2c.hex(), c2s.hex(), ver, ncookies))
